@@ -223,6 +223,9 @@ pub fn run(tier: &str) -> i32 {
         for some in [false, true] {
             qcl.push(Clause::Binary { not: false, some, q: vec![key("x")], op, opneg: false, rhs: Arg::Q(false, vec![key("y")]), msg: None });
             qcl.push(Clause::Binary { not: false, some, q: vec![key("x"), Part::All], op, opneg: false, rhs: Arg::Q(false, vec![key("y"), Part::All]), msg: None });
+            // one value on the left, several on the right, and the other way round
+            qcl.push(Clause::Binary { not: false, some, q: vec![key("x")], op, opneg: false, rhs: Arg::Q(false, vec![key("y"), Part::All]), msg: None });
+            qcl.push(Clause::Binary { not: false, some, q: vec![key("x"), Part::All], op, opneg: false, rhs: Arg::Q(false, vec![key("y")]), msg: None });
         }
     }
     let mut pairs: Vec<V> = vec![];
